@@ -235,7 +235,7 @@ def symbolize_leaves(eng, reg, tag="s", tie_paths=True):
 def faithful_check(eng, reg, settings, gen_out, ids, depth=None):
     """C01 oracle: for each id, the type the generator names for it has the registry's shape.
     Returns list of (id, message) for ids that are NOT provably faithful on this path, with a model if symbolic."""
-    depth = depth or min(len(reg) + 2, 8)
+    depth = depth or (min(len(reg) + 2, 8) if len(reg) <= 60 else 5)
     name, module = parse_root(gen_out["tokens"])
     ts = TokShapes(name, module, settings.get("compact_path"), settings.get("bits_path"), settings.alloc_root())
     rs = RegShapes(reg)
@@ -268,7 +268,7 @@ def strip_sym(toks):
 
 def faithful_check_concrete(reg, settings, real, ids, depth=None):
     """same oracle on the real build's printed output (concrete registry); returns list of messages"""
-    depth = depth or min(len(reg) + 2, 8)
+    depth = depth or (min(len(reg) + 2, 8) if len(reg) <= 60 else 5)
     if real.get("result") != "Ok": return []
     try:
         name, module = parse_root(tokenize(real["tokens"]))
